@@ -1173,8 +1173,12 @@ CJSON_PUBLIC(cJSON *) cJSON_ParseWithLengthOpts(const char *value, size_t buffer
     /* if we require null-terminated JSON without appended garbage, skip and then check for a null terminator */
     if (require_null_terminated)
     {
-        buffer_skip_whitespace(&buffer);
-        if ((buffer.offset >= buffer.length) || buffer_at_offset(&buffer)[0] != '\0')
+        /* skip whitespace up to, but not beyond, the first null terminator */
+        while (can_access_at_index(&buffer, 0) && (buffer_at_offset(&buffer)[0] != '\0') && (buffer_at_offset(&buffer)[0] <= 32))
+        {
+            buffer.offset++;
+        }
+        if (cannot_access_at_index(&buffer, 0) || buffer_at_offset(&buffer)[0] != '\0')
         {
             goto fail;
         }
